@@ -1,7 +1,7 @@
 (* C20: the distance handed to the constraint table, as translated from Universal2DBox::dist_in_2r
    (gen/ScalarBox.v: ubox_dist_in_2r_sq_r - the squared value, with the two bounding radii as inputs
    because get_radius takes a square root). *)
-From Coq Require Import QArith Lia Lra.
+From Coq Require Import QArith Lia Lqa.
 From Similari Require Import Base.Num.
 From SimilariGen Require Import Consts Scalar ScalarBox.
 
@@ -9,6 +9,19 @@ Local Open Scope Q_scope.
 
 Definition cx (b : Universal2DBox Qops) : Q := Universal2DBox_xc Qops b.
 Definition cy (b : Universal2DBox Qops) : Q := Universal2DBox_yc Qops b.
+
+Lemma Qsq_nonneg (x : Q) : 0 <= x * x.
+Proof.
+  destruct (Qlt_le_dec x 0) as [Hn|Hp].
+  - setoid_replace (x * x) with ((- x) * (- x)) by ring. apply Qmult_le_0_compat; lra.
+  - apply Qmult_le_0_compat; lra.
+Qed.
+
+Lemma Qsq_zero (x : Q) : x * x == 0 -> x == 0.
+Proof.
+  intros H. destruct (Qeq_dec x 0) as [E|E]; [exact E|].
+  exfalso. apply E. apply Qmult_integral in H. destruct H; assumption.
+Qed.
 
 (* the squared centre distance divided by the squared sum of the radii (plus EPS) *)
 Lemma dist_in_2r_sq_formula l r (rl rr : Q) :
@@ -35,9 +48,7 @@ Proof.
   { assert (0 <= (rl + rr) * (rl + rr)) by (apply Qmult_le_0_compat; lra).
     assert (0 < EPS) by reflexivity. lra. }
   apply Qle_shift_div_l; [exact Hd|].
-  assert (0 <= (cx l - cx r) * (cx l - cx r)) by (apply Qsqr_nonneg_aux || nra).
-  assert (0 <= (cy l - cy r) * (cy l - cy r)) by nra.
-  lra.
+  pose proof (Qsq_nonneg (cx l - cx r)). pose proof (Qsq_nonneg (cy l - cy r)). lra.
 Qed.
 
 (* monotone in the radii: bigger boxes are "closer" in these units *)
@@ -55,6 +66,9 @@ Proof.
     { apply (Qmult_inj_r _ _ (/ ((rl + rr) * (rl + rr) + EPS))).
       - intro Hz. apply (Qinv_lt_0_compat) in Hd. lra.
       - unfold Qdiv in H. rewrite H. ring. }
-    split; nra.
+    pose proof (Qsq_nonneg (cx l - cx r)) as H1. pose proof (Qsq_nonneg (cy l - cy r)) as H2.
+    assert (Hx : (cx l - cx r) * (cx l - cx r) == 0) by lra.
+    assert (Hy : (cy l - cy r) * (cy l - cy r) == 0) by lra.
+    apply Qsq_zero in Hx. apply Qsq_zero in Hy. split; lra.
   - intros [Hx Hy]. rewrite Hx, Hy. unfold Qdiv. ring.
 Qed.
